@@ -216,7 +216,7 @@ func C07(r *ck.Run) {
 	if r.Thorough() {
 		maxSet = 6
 	}
-	r.Rule(fmt.Sprintf("every subset of size <= %d of a 12-key universe chosen for order traps (siblings sorting before '/', explicit directory objects, nested prefixes, keys that are prefixes of others) built with real PutObject calls (followed by two refused uploads below new directories and a delete of a missing key, which must leave no trace) × every prefix of every key (+1 non-matching) × delimiter {none,'/','b','-','a/'} × (full listing, pagination walks with max-keys 1,2,3 following the returned markers, every start position from a menu, max-keys 0) through posix ListObjects and ListObjectsV2; plus keys that carry the temp directory's name below the top level (stored, so listed); distinct = (set, prefix, delimiter, mode, start, api)", maxSet))
+	r.Rule(fmt.Sprintf("every subset of size <= %d of a 12-key universe chosen for order traps (siblings sorting before '/', explicit directory objects, nested prefixes, keys that are prefixes of others) built with real PutObject calls (followed by two refused uploads below new directories and a delete of a missing key, which must leave no trace) × every prefix of every key (+8 non-matching, among them prefixes with a leading, empty or dot path element) × delimiter {none,'/','b','-','a/'} × (full listing, pagination walks with max-keys 1,2,3 following the returned markers, every start position from a menu, max-keys 0) through posix ListObjects and ListObjectsV2; plus keys that carry the temp directory's name below the top level (stored, so listed); distinct = (set, prefix, delimiter, mode, start, api)", maxSet))
 	r.Assume("a start position strictly inside a common prefix may or may not repeat that prefix; everything else follows the S3 listing rules exactly")
 	subsets := subsetsUpTo(len(c07Universe), maxSet)
 	delims := []string{"", "/", "b", "-", "a/"}
@@ -264,7 +264,8 @@ func C07(r *ck.Run) {
 					hasDirObj = true
 				}
 			}
-			prefixes := map[string]bool{"": true, "zz": true}
+			// "zz" matches no key; neither do prefixes with a leading, an empty or a dot path element (no key has one)
+			prefixes := map[string]bool{"": true, "zz": true, "/": true, "/a": true, "/a/": true, "a//": true, "a//b": true, "./a": true, "a/../a": true}
 			for _, k := range keys {
 				for i := 1; i <= len(k); i++ {
 					prefixes[k[:i]] = true
